@@ -282,6 +282,23 @@ def case_paths(rep):
         f32 = fem.Field(r32, dim=dim, values=f4.values.astype(np.float32))
         run.compare(mon, "template=%s clause=float32-grad" % fam, maxabs(np.asarray(f32.grad(), float) - g4) * hs4 / max(1.0, maxabs(f4.values)), 5e-4,
                     "gradient evaluated on the float32 copy of the region is not the float64 one within single precision", unit="paths:float32-field")
+        # ---- bare reload() after the points of the mesh were changed in place ("reload the numeric region inplace",
+        #      every argument optional): shape functions, gradients and volumes must follow the new geometry
+        A5, t5 = gen.random_affine(rng, dim)
+        vol5 = float(reg.dV.sum())
+        mesh.points[:] = mesh.points @ A5.T + t5
+        reg.reload()
+        run.compare(mon, "template=%s clause=bare-reload-volume" % fam, abs(reg.dV.sum() - vol5 * np.linalg.det(A5)) / (vol5 * np.linalg.det(A5)), 1e-11,
+                    "after changing the points in place and region.reload() the differential volumes do not measure the new geometry",
+                    unit="paths:bare-reload", config=(fam, "bare-reload"))
+        X5 = mesh.points
+        Xq5 = np.einsum("caI,aq->qcI", X5[mesh.cells], hq)
+        polys5 = [Poly(rng, dim, monomials_total(dim, 1)) for _ in range(dim)]
+        f5 = fem.Field(reg, dim=dim, values=np.stack([p(X5) for p in polys5], axis=1))
+        g5 = np.stack([np.moveaxis(p.grad(Xq5), -1, 0) for p in polys5], 0)
+        hs5 = float(np.min(X5[mesh.cells].max(1) - X5[mesh.cells].min(1)))
+        run.compare(mon, "template=%s clause=bare-reload-grad" % fam, maxabs(f5.grad() - g5) * hs5 / max(1.0, maxabs(f5.values)), 1e-10,
+                    "after region.reload() without arguments the gradient of a linear function on the new geometry is wrong", unit="paths:bare-reload")
         # ---- Lagrange regions on meshes with several cells (the cell axis is not a broadcast axis)
         if rep % 2 == 0:
             base = fem.Rectangle(b=(1.5, 1.2), n=(3, 4))
@@ -651,7 +668,7 @@ def _required():
         if not gen.FAMILIES[fam].get("mini"):
             req.append(fam + ":exact-integration")
     req += ["paths:" + u for u in ("copy-hess", "dhdr-pairing", "extract-flags", "extract-out", "float32-field", "grad-out", "grad-sym", "h-pairing",
-                                   "interpolate-out", "lagrange-multicell", "mixed-extract", "reload", "uniform-hess", "uniform-sheared")]
+                                   "interpolate-out", "lagrange-multicell", "mixed-extract", "reload", "bare-reload", "uniform-hess", "uniform-sheared")]
     req += ["boundary-template:%s:grad" % f for f in BOUNDARY_TEMPLATES]
     return req
 
